@@ -11,6 +11,7 @@
 package c20
 
 import (
+	"encoding/json"
 	"fmt"
 	"os"
 	"path/filepath"
@@ -252,11 +253,45 @@ func randomValue(l leaf, def reflect.Value, rnd interface{ Intn(int) int }, tag 
 	case l.typ.Kind() >= reflect.Uint && l.typ.Kind() <= reflect.Uint64:
 		v.SetUint(uint64(1 + rnd.Intn(60000)))
 	case l.typ.Kind() == reflect.String:
-		v.SetString(fmt.Sprintf("%s_%s_r%d", tag, strings.ReplaceAll(l.path, ".", "-"), rnd.Intn(1<<20)))
+		base := fmt.Sprintf("%s_%s_r%d", tag, strings.ReplaceAll(l.path, ".", "-"), rnd.Intn(1<<20))
+		// a value is taken as written: nothing in it is expanded, trimmed or re-interpreted
+		switch rnd.Intn(8) {
+		case 0:
+			base = "$HOME/" + base
+		case 1:
+			base += "${PATH}x"
+		case 2:
+			base = "pa$$w0rd" + base + "$"
+		case 3:
+			base = "%s%d " + base + " #not-a-comment"
+		}
+		v.SetString(base)
 	default:
 		return v, false
 	}
 	return v, true
+}
+
+// decoy turns the content of a configuration file into a different, well-formed content for the same keys.
+func decoy(m map[string]any) map[string]any {
+	out := map[string]any{}
+	for k, v := range m {
+		switch x := v.(type) {
+		case map[string]any:
+			out[k] = decoy(x)
+		case bool:
+			out[k] = !x
+		case int64:
+			out[k] = x + 7777
+		case uint64:
+			out[k] = x + 7777
+		case float64:
+			out[k] = x + 7777
+		default:
+			out[k] = "decoy"
+		}
+	}
+	return out
 }
 
 // yamlForm is the value as it is written to the YAML file (durations in the documented "24h" form).
@@ -385,6 +420,18 @@ func (h *harness) startup(fileYAML map[string]any, rawYAML string, env map[strin
 			return res
 		}
 		defer os.Remove(path)
+		if h.nfile%3 == 0 {
+			// files next to the selected one that share its base name (other formats) are none of the service's business
+			stem := strings.TrimSuffix(path, filepath.Ext(path))
+			if b, err := json.Marshal(decoy(fileYAML)); err == nil {
+				for _, ext := range []string{".json", ".yml"} {
+					if os.WriteFile(stem+ext, b, 0o600) == nil { // JSON is also valid YAML
+						defer os.Remove(stem + ext)
+					}
+				}
+				h.r.Count("start_ups_with_decoy_files_next_to_the_selected_one", 1)
+			}
+		}
 	}
 	oldArgs, oldStdout := os.Args, os.Stdout
 	defer func() { os.Args, os.Stdout = oldArgs, oldStdout }()
